@@ -15,6 +15,70 @@ from . import sym
 from .sym import Lg, Ex, Erf, QFact
 
 
+class Budget(Exception):
+    pass
+
+
+class time_limit(object):
+    """wall-clock budget for one algebraic decision (SIGALRM; tasks run in the main thread of their worker process)"""
+
+    def __init__(self, seconds):
+        self.seconds = int(seconds)
+
+    def __enter__(self):
+        import signal
+        self.ok = hasattr(signal, 'SIGALRM')
+        if self.ok:
+            try:
+                self.old = signal.signal(signal.SIGALRM, self._raise)
+                signal.alarm(self.seconds)
+            except ValueError:          # not in the main thread
+                self.ok = False
+        return self
+
+    def _raise(self, *a):
+        raise Budget('time budget of %d s exhausted' % self.seconds)
+
+    def __exit__(self, *a):
+        import signal
+        if self.ok:
+            signal.alarm(0)
+            signal.signal(signal.SIGALRM, self.old)
+        return False
+
+
+def numeric_probe(e, trials=2):
+    """evaluate a rational expression at random rational values of its generators (symbols, indexed atoms, sum atoms and
+    opaque applications are all independent generators, exactly as for cancel()).  Returns False if some value is non-zero
+    (then it is not an identity in the generators), True if all trials vanish."""
+    import random
+    rnd = random.Random(12345)
+    gens = set()
+    for a in sp.preorder_traversal(e):
+        pass
+    atoms = list(e.atoms(Lg, Ex, Erf, sp.Indexed, sp.core.function.AppliedUndef))
+    outer = [a for a in atoms if not any((a is not b) and b.has(a) for b in atoms)]
+    for _ in range(trials):
+        sub = {a: sp.Rational(rnd.randint(2, 97), rnd.randint(2, 89)) for a in outer}
+        e2 = e.xreplace(sub)
+        sub2 = {s_: sp.Rational(rnd.randint(2, 97), rnd.randint(2, 89)) for s_ in e2.free_symbols}
+        try:
+            v = e2.xreplace(sub2)
+            v = sp.nsimplify(v) if not v.is_number else v
+            if v.is_number and not v.has(sp.pi, sp.sqrt(2)):
+                if v != 0:
+                    return False
+            else:
+                if abs(sp.N(v, 30)) > sp.Float(10) ** -20:
+                    return False
+        except Exception:
+            return True
+    return True
+
+
+ZERO_BUDGET_S = 25
+
+
 def frozen(fn, e):
     """apply an algebraic transformation without letting it rewrite the (already canonical) arguments of the opaque
     functions: sympy's expand() otherwise expands inside function arguments"""
@@ -189,6 +253,11 @@ class Normalizer(object):
                 rest = rest * coeff
         for f in factors:
             base, ex = f.as_base_exp()
+            if base.is_Add:
+                fb = Xfactor(base)
+                if not fb.is_Add:
+                    out += ex * self.split_log(fb, bound)      # e.g. log(a^2 + 2ab + b^2) = 2 log(a + b)
+                    continue
             if isinstance(base, Ex):
                 out += ex * base.args[0]
             elif self.positive(base, bound) or (ex.is_Rational and not ex.is_Integer and ex.q % 2 == 0):
@@ -417,14 +486,20 @@ class Normalizer(object):
         return sp.Mul(*out) if changed else term
 
     def is_zero(self, e):
-        e = self.norm(e)
-        if e == 0:
-            return True, e
-        e = frozen(sp.expand, e)
-        if e == 0:
-            return True, e
-        e = Xcancel(Xtogether(e))
-        return e == 0, e
+        try:
+            with time_limit(ZERO_BUDGET_S):
+                e = self.norm(e)
+                if e == 0:
+                    return True, e
+                e = frozen(sp.expand, e)
+                if e == 0:
+                    return True, e
+                if not numeric_probe(e):
+                    return False, e          # non-zero at a random point of the generators: not an identity
+                e = Xcancel(Xtogether(e))
+                return e == 0, e
+        except Budget as ex:
+            return False, sp.Symbol('undecided_%s' % str(ex).replace(' ', '_'))
 
 
 def prove_equal(a, b, conds=()):
